@@ -617,20 +617,20 @@ func VerifC12_SenderCache() {
 	c2 := ids[vs.Choice("chain2", 2)]
 	s1, s2 := c12Signer(k1, c1), c12Signer(k2, c2)
 	d := c12Content()
-	vform := vs.Choice("vform", 6)
+	vform := vs.Choice("vform", vs.Param("vforms"))
 	switch vform {
 	case 0:
 		d.V = big.NewInt(27)
 	case 1:
-		d.V = big.NewInt(28)
-	case 2:
 		d.V = new(big.Int).Add(new(big.Int).Lsh(ids[0], 1), big.NewInt(35))
-	case 3:
-		d.V = new(big.Int).Add(new(big.Int).Lsh(ids[0], 1), big.NewInt(36))
-	case 4:
+	case 2:
 		d.V = new(big.Int).Add(new(big.Int).Lsh(ids[1], 1), big.NewInt(35))
-	default:
+	case 3:
 		d.V = big.NewInt(100)
+	case 4:
+		d.V = big.NewInt(28)
+	default:
+		d.V = new(big.Int).Add(new(big.Int).Lsh(ids[0], 1), big.NewInt(36))
 	}
 	d.R, d.S = vs.BigU("R", 256), vs.BigU("S", 256)
 	vs.Assume(c12All(d.R.Cmp(c12two248) >= 0, d.R.Cmp(c12N) < 0, d.S.Cmp(c12two248) >= 0, d.S.Cmp(c12N) < 0))
